@@ -34,6 +34,8 @@ pub struct Faults {
     pub dead_from: Option<(usize, u8)>,
     /// replace MISO byte number `.0` by `.1`
     pub replace: Vec<(usize, u8)>,
+    /// the card's answers are masked by 0xFF for global MISO byte indices in [from, to) (it keeps running)
+    pub silent_window: Option<(usize, usize)>,
 }
 
 pub struct BusState {
@@ -91,6 +93,11 @@ impl SimSpi {
                         1 => 0x00,
                         _ => st.garbage.next() as u8,
                     };
+                }
+            }
+            if let Some((from, to)) = st.faults.silent_window {
+                if g >= from && g < to {
+                    *b = 0xFF;
                 }
             }
             for (i, m) in st.faults.flip.clone() {
@@ -558,6 +565,9 @@ pub fn c12(ctx: &Ctx) -> Report {
         let cfg = random_cfg(&mut rng, k);
         legal_session(ctx, &mut rng, &mut rep, &cfg, &format!("c12/{}/{k}", ctx.seed), if ctx.thorough { 30 } else { 16 }, "C12");
     }
+    for k in 0..(if ctx.thorough { 12 } else { 2 }) {
+        slow_card_session(ctx, &mut rng, &mut rep, k, &format!("c12slow/{}/{k}", ctx.seed));
+    }
     rep.rule = "sessions of the real SdCard driver against the Lean card specification: kinds {SD1, SD2 standard capacity, SDHC} x CRC on/off x CSD registers (several C_SIZE / C_SIZE_MULT, v1 and v2 layouts) x timings (response delay 0..8, token delay 0..39, busy 0..59 bytes, 0..5 ACMD41 polls); calls: single and multi-block reads and writes at block 0, 1, last, last-1, middle, random; card type, capacity in blocks and bytes, mark-uninit + re-identification; oracles: harness-side memory map vs the card's memory after every write (written blocks and neighbours), read results, capacity from the CSD formulas; every call replayed on the Lean driver model (MOSI byte for byte, result, delay count); distinct = sessions".into();
     rep.distinct_nontrivial = rep.cases;
     rep
@@ -581,34 +591,65 @@ pub fn c14(ctx: &Ctx) -> Report {
 }
 
 /// A session in which one call fails in the middle of a transfer and the next calls must still form
-/// a legal conversation.
+/// a legal conversation.  Variants: a corrupted block inside a multiple-block read (any block, also
+/// not the last one: the corruption must be reported), and a card that falls silent for longer than
+/// the read timeout in the middle of a multiple-block read and then carries on.
 fn after_error_session(ctx: &Ctx, rng: &mut Rng, rep: &mut Report, k: usize, tag: &str) {
     let cfg = random_cfg(rng, k);
-    let cfg = CaseCfg { use_crc: true, ..cfg };
+    let cfg = CaseCfg { use_crc: true, timing: (cfg.timing.0, cfg.timing.1 % 8, cfg.timing.2 % 8, cfg.timing.3), ..cfg };
     let mut rig = Rig::new(&ctx.model_path, cfg.kind, cfg.csd.clone(), cfg.timing, true, cfg.retries, rng.next());
     rep.cases += 1;
     let (r0, l0, d0) = rig.call(&Call::CardType);
     correspond(rep, &mut rig, &Call::CardType, &r0, &l0, d0, tag);
     let mut in_multi = false;
     let mut last_cmd = None;
-    // corrupt the n-th data byte that will come back during the next call
-    let multi = k % 2 == 0;
-    let call = if multi { Call::Read(3, 1) } else { Call::Read(1, 1) };
+    let nblocks = 3usize;
+    let call = Call::Read(nblocks, 1);
+    // a clean run first: where does each block's payload start in the MISO stream of this call?
+    let (rc, lc, dc) = rig.call(&call);
+    correspond(rep, &mut rig, &call, &rc, &lc, dc, tag);
+    let mut starts: Vec<usize> = Vec::new();
+    let mut pos = 0usize;
+    for t in &lc {
+        if t.out.len() == 512 {
+            starts.push(pos);
+        }
+        pos += t.out.len();
+    }
+    if starts.len() != nblocks {
+        return;
+    }
     let base = rig.bus.borrow().miso_bytes;
-    // somewhere inside the first data block (after command + response + token)
-    let off = base + 40 + cfg.timing.0 as usize + cfg.timing.1 as usize + rng.below(400) as usize;
-    rig.bus.borrow_mut().faults.flip = vec![(off, 1 << rng.below(8))];
+    let variant = k % 3;
+    let which = rng.below(nblocks as u64) as usize;
+    if variant < 2 {
+        // corrupt one bit of block `which` (data or its CRC)
+        let bit = rng.below(4112) as usize;
+        rig.bus.borrow_mut().faults.flip = vec![(base + starts[which] + bit / 8, 0x80 >> (bit % 8))];
+        rep.count(&format!("after-error:flip-in-block-{}-of-{}", which + 1, nblocks));
+    } else {
+        // silence from just before block 2's token for longer than the read budget, then the card carries on
+        let from = base + starts[1] - 1 - cfg.timing.1 as usize;
+        rig.bus.borrow_mut().faults.silent_window = Some((from, from + 10_050));
+        rep.count("after-error:silent-window");
+    }
     let (res, log, delays) = rig.call(&call);
     rig.bus.borrow_mut().faults = Faults::default();
     rep.ops += 1;
     check_frames(rep, &log, tag, &call, &mut in_multi, &mut last_cmd);
     correspond(rep, &mut rig, &call, &res, &log, delays, tag);
-    rep.count(&format!("after-error:first-call:{}", res.split('.').next().unwrap_or("")));
+    rep.oracle_checks += 1;
+    if variant < 2 && !res.starts_with("err CrcError") {
+        rep.violation("impl-vs-spec", "corruption-accepted-multi", &format!("a bit of block {} of a {}-block read was flipped on the wire (CRC on) and the read returned `{}`", which + 1, nblocks, trunc(&res, 60)), J::obj(vec![("case", J::s(tag.to_string())), ("kind", J::s(cfg.kind.token())), ("block", J::i(which as i128 + 1))]));
+    }
+    if variant == 2 && !res.starts_with("err") {
+        rep.notes.push(format!("silent window did not make the read fail: {}", trunc(&res, 40)));
+    }
     for c in [Call::Read(1, 2), Call::Write(3, vec![block_pattern(rng)]), Call::Read(2, 3)] {
-        let (res, log, delays) = rig.call(&c);
+        let (r2, log, delays) = rig.call(&c);
         rep.ops += 1;
         check_frames(rep, &log, tag, &c, &mut in_multi, &mut last_cmd);
-        correspond(rep, &mut rig, &c, &res, &log, delays, tag);
+        correspond(rep, &mut rig, &c, &r2, &log, delays, tag);
         let viol = rig.violations();
         rep.oracle_checks += 1;
         if viol != "-" {
@@ -619,10 +660,39 @@ fn after_error_session(ctx: &Ctx, rng: &mut Rng, rep: &mut Report, k: usize, tag
     }
 }
 
+/// C12 with the extremes of legal timing: a busy period after a single-block write that is long but
+/// below the driver's write timeout, and a data-token delay just below the read timeout.
+fn slow_card_session(ctx: &Ctx, rng: &mut Rng, rep: &mut Report, k: usize, tag: &str) {
+    let base = random_cfg(rng, k);
+    let busy = *rng.pick(&[12_000u32, 30_000, 49_000]);
+    let nac = *rng.pick(&[0u32, 9_000]);
+    let cfg = CaseCfg { timing: (base.timing.0, nac, busy, 1), ..base };
+    let mut rig = Rig::new(&ctx.model_path, cfg.kind, cfg.csd.clone(), cfg.timing, cfg.use_crc, cfg.retries, rng.next());
+    rep.cases += 1;
+    rep.count("slow-card");
+    let (r0, l0, d0) = rig.call(&Call::CardType);
+    correspond(rep, &mut rig, &Call::CardType, &r0, &l0, d0, tag);
+    let b = block_pattern(rng);
+    for c in [Call::Write(2, vec![b]), Call::Read(1, 2)] {
+        let (res, log, delays) = rig.call(&c);
+        rep.ops += 1;
+        rep.oracle_checks += 1;
+        let good = match &c { Call::Write(..) => res == "ok", _ => res == format!("ok blocks {}", hex(&b)) };
+        if !good {
+            rep.violation("impl-vs-spec", "legal-slow-card-fails", &format!("`{}` against a card with legal timing (busy {} bytes, token delay {} bytes: both below the driver's budgets) returned `{}`", c.show(), busy, nac, trunc(&res, 60)), J::obj(vec![("case", J::s(tag.to_string())), ("kind", J::s(cfg.kind.token())), ("timing", J::s(format!("{:?}", cfg.timing)))]));
+        }
+        correspond(rep, &mut rig, &c, &res, &log, delays, tag);
+    }
+}
+
 pub fn c13(ctx: &Ctx) -> Report {
     let mut rep = Report::new("C13");
     let mut rng = Rng::new(ctx.seed ^ 0xC13);
     let nconf = if ctx.thorough { 18 } else { 2 };
+    // corrupted blocks inside multiple-block reads (any block of the transfer) and a card that stalls mid-transfer
+    for k in 0..(if ctx.thorough { 90 } else { 9 }) {
+        after_error_session(ctx, &mut rng, &mut rep, k, &format!("c13m/{}/{k}", ctx.seed));
+    }
     for k in 0..nconf {
         let cfg = random_cfg(&mut rng, k);
         let tag = format!("c13/{}/{k}", ctx.seed);
